@@ -12,9 +12,15 @@
 (* Items come from a seed file (definitions cut from GleamSyn programs and *)
 (* hand-written ones): [kind, name, lex, lo, hi] where lex[lo] and lex[hi] *)
 (* are the outermost braces (lo = hi = 0 for items without a body: those   *)
-(* are only ever bystanders).  A behaviour chooses a file (sequence of     *)
+(* are only ever bystanders).  A constant or type alias has a body that is *)
+(* not delimited by braces: everything after its `=` (open = TRUE, lo =    *)
+(* the position of `=`, hi = Len(lex) + 1).  Damage at the open end of     *)
+(* such a body with a token that can START a definition (pub, fn, type,    *)
+(* const, import, opaque, external, @) would change the text of the NEXT   *)
+(* definition under any reading, so those tokens are not in the damage     *)
+(* alphabet of an open body.  A behaviour chooses a file (sequence of      *)
 (* items), a victim with a body, and applies up to MaxEdits edits at       *)
-(* positions strictly between the victim's outermost braces.               *)
+(* positions strictly inside the victim's body.                            *)
 (***************************************************************************)
 EXTENDS Naturals, Sequences, FiniteSets, TLC, Json, IOUtils
 
@@ -27,6 +33,7 @@ DamageLex == {"as", "assert", "case", "const", "external", "fn", "if", "import",
               "a", "A", "_x", "aB", "A_b", "1", "1.5", "\"s\"",
               "+", "-", "*", "/", "<", ">", "<=", ">=", "+.", "-.", "*.", "/.", "%", "<.", ">.", "<=.", ">=.", "<>", "==", "!=",
               "||", "&&", "|>", "!", ")", "]", ">>", ",", ":", ".", "..", "->", "<-", "=", "|", "@", "$", "~"}
+DefStart == {"pub", "fn", "type", "const", "import", "opaque", "external", "@"}
 Openers == {"(", "[", "{", "<<", "#", "\"", "//", "#("}
 Braces  == {"{", "}"}
 
@@ -40,6 +47,8 @@ vars == <<file, victim, body, lo, hi, edits>>
 Pick(S) == IF Sim /\ S # {} THEN {RandomElement(S)} ELSE S
 
 HasBody(i) == Items[i].lo > 0
+IsOpen == victim # 0 /\ Items[file[victim]].open
+Alphabet == IF IsOpen THEN DamageLex \ DefStart ELSE DamageLex
 
 \* files that contain at least one definition with a body (a possible victim); exhaustive mode: the victim first,
 \* then one of the designated followers (one per way a following definition can start)
@@ -57,7 +66,7 @@ Choose == /\ victim = 0
           /\ UNCHANGED <<file, edits>>
 
 \* edits never touch a brace and never introduce an opener
-Insert == \E p \in Pick(lo..(hi - 1)), x \in Pick(DamageLex) :
+Insert == \E p \in Pick(lo..(hi - 1)), x \in Pick(Alphabet) :
             /\ body' = SubSeq(body, 1, p) \o <<x>> \o SubSeq(body, p + 1, Len(body))
             /\ hi' = hi + 1
             /\ edits' = Append(edits, [k |-> "ins", p |-> p, x |-> x])
@@ -65,7 +74,7 @@ Delete == \E p \in Pick({q \in (lo + 1)..(hi - 1) : body[q] \notin Braces}) :
             /\ body' = SubSeq(body, 1, p - 1) \o SubSeq(body, p + 1, Len(body))
             /\ hi' = hi - 1
             /\ edits' = Append(edits, [k |-> "del", p |-> p, x |-> body[p]])
-Replace == \E p \in Pick({q \in (lo + 1)..(hi - 1) : body[q] \notin Braces}), x \in Pick(DamageLex) :
+Replace == \E p \in Pick({q \in (lo + 1)..(hi - 1) : body[q] \notin Braces}), x \in Pick(Alphabet) :
             /\ body' = [body EXCEPT ![p] = x]
             /\ hi' = hi
             /\ edits' = Append(edits, [k |-> "rep", p |-> p, x |-> x])
@@ -94,8 +103,10 @@ Depth(s, i, d) == IF i > Len(s) THEN d
                   ELSE IF d < 0 THEN d
                   ELSE Depth(s, i + 1, IF s[i] = "{" THEN d + 1 ELSE IF s[i] = "}" THEN d - 1 ELSE d)
 Admissible == victim # 0 =>
-                 /\ body[lo] = "{" /\ body[hi] = "}"
-                 /\ Depth(SubSeq(body, lo, hi), 1, 0) = 0                       \* braces balanced
+                 /\ IF IsOpen THEN body[lo] = "=" /\ hi = Len(body) + 1
+                               ELSE body[lo] = "{" /\ body[hi] = "}"
+                 /\ Depth(SubSeq(body, lo, IF IsOpen THEN Len(body) ELSE hi), 1, 0) = 0   \* braces balanced
+                 /\ IsOpen => \A e \in {edits[i] : i \in 1..Len(edits)} : e.k \in {"ins", "rep"} => e.x \notin DefStart
                  /\ \A e \in {edits[i] : i \in 1..Len(edits)} : e.k \in {"ins", "rep"} => e.x \notin Openers
                  /\ SubSeq(body, 1, lo) = SubSeq(Items[file[victim]].lex, 1, lo)   \* nothing before the body changed
 EmitCase == (~Sim /\ victim # 0 /\ edits # <<>>) => PrintT(<<"CASE", ToJson(Case)>>)
